@@ -155,6 +155,15 @@ class ClassGen:
         final = rng.random() < 0.1 and not bases
         if final:
             head = "%s %s final" % (key, name)
+        # class templates: primary, explicit and partial specializations -- the members are the same members
+        if key != "union" and rng.random() < 0.25:
+            form = rng.choice(["primary", "explicit", "partial", "partial2"])
+            if form == "primary":
+                head = "template <typename T> " + head
+            else:
+                args = {"explicit": "<int>", "partial": "<T*>", "partial2": "<T, 3>"}[form]
+                pre = "template <> " if form == "explicit" else "template <typename T> "
+                head = pre + head.replace("%s %s" % (key, name), "%s %s%s" % (key, name, args), 1)
         outer_lines.append(indent + head + " {")
         exp = dict(name=name, key=key, bases=bases, final=final, fields=[], methods=[], friends=[], typedefs=[], using=[], using_alias=[],
                    enums=[], forward_decls=[], classes=[])
